@@ -341,6 +341,19 @@ def classify(c, r, open_known):
             ph = [p for p in c["prog"]["phases"] if p["name"] == c["phase"]][0]
             if any(_call_in_if_branch(e) for op in pg.walk_ops(ph["ops"]) for e in pg.op_exprs(op)):
                 return k["id"]
+        if k.get("matcher") == "flatten_drops_call_in_isolated_argument":
+            # narrow: fewer external calls after an isolator (or the pipeline containing one), and the
+            # phase has a product/quotient with a call factor that pymbolic's flatten reduces away
+            # (x*0 -> 0, 0/x -> 0): the isolated argument lands in an Assign, whose constructor flattens
+            if c.get("kind") != "semantic" or c.get("pass") not in (
+                    "isolate_function_arguments", "isolate_function_calls", "fortran_order"):
+                continue
+            import re
+            m = re.match(r"(\d+) external calls before .*?, (\d+) after", c.get("problem", ""))
+            if not m or int(m.group(2)) >= int(m.group(1)):
+                continue
+            if pg.prog_flatten_drops(c["prog"], "call", phase=c["phase"]):
+                return k["id"]
     return None
 
 
@@ -382,6 +395,8 @@ def c07_corpus():
         pg.P1([["assign", "<state>y", ADD(Y, C(1)), []], ["assign", "<state>y", MUL(Y, Y), []],
                ["assign", ["sub", "<state>v", C(0)], ADD(["sub", V("<state>v"), C(0)], C(1)), []]]),
         pg.P1([pg.yld(F(G(Y)), t=IF(LT(T, C(0)), T, DT)), ["if", ["expr", GT(F(Y), C(0))], [["fail"]], None]]),
+        # a call factor next to a factor that flatten reduces to 0 (C07-K2)
+        pg.P1([["assign_call", ["<state>z"], "<func>g", [MUL(G(C(0)), ["/", C(0), DT])], {}]]),
     ]
     for i, p in enumerate(progs):
         p["name"] = "c07_%d" % i
